@@ -394,9 +394,10 @@ func (bs *BinarySpray) ReportFailure(bp BundleDescriptor, sender cla.Convergence
 
 	binarySprayBlock := metadataBlock.Value.(*bpv7.BinarySprayBlock)
 
-	bs.dataMutex.RLock()
+	bs.dataMutex.Lock()
+	defer bs.dataMutex.Unlock()
+
 	metadata, ok := bs.bundleData[bp.Id]
-	bs.dataMutex.RUnlock()
 	if !ok {
 		log.WithFields(log.Fields{
 			"bundle":  bp.ID(),
@@ -404,7 +405,10 @@ func (bs *BinarySpray) ReportFailure(bp BundleDescriptor, sender cla.Convergence
 		}).Warn("No metadata")
 		return
 	}
-	binarySprayBlock.SetCopies(metadata.remainingCopies + binarySprayBlock.RemainingCopies())
+
+	// The copies announced to the unreachable peer are ours again.
+	metadata.remainingCopies = metadata.remainingCopies + binarySprayBlock.RemainingCopies()
+	binarySprayBlock.SetCopies(metadata.remainingCopies)
 
 	for i := 0; i < len(metadata.sent); i++ {
 		if metadata.sent[i] == sender.GetPeerEndpointID() {
@@ -413,9 +417,7 @@ func (bs *BinarySpray) ReportFailure(bp BundleDescriptor, sender cla.Convergence
 		}
 	}
 
-	bs.dataMutex.Lock()
 	bs.bundleData[bp.Id] = metadata
-	bs.dataMutex.Unlock()
 }
 
 func (_ *BinarySpray) ReportPeerAppeared(_ cla.Convergence) {}
